@@ -1777,6 +1777,17 @@ static void runWitnesses(vh::PropLog& log, std::map<std::string, long>& stats) {
         else log.ok();
         stats["witness.multivalue-inactive"]++;
     }
+    // (d) ADD on an array whose deck unit has an offset: the shift is a temperature difference
+    //     (50 C + 10 C = 60 C = 333.15 K; the full conversion of the shift would add 273.15 twice)
+    {
+        const std::string tail = "PROPS\nREGIONS\nSOLUTION\nTEMPI\n 2*50 /\nADD\n TEMPI 10 /\n/\n";
+        const auto v = realGetDouble(smallDeck("2 1 1", 2, "PORO\n 2*0.3 /\n", "WATER\nTHERMAL\n", tail), "TEMPI");
+        if (!v || v->size() != 2) log.fail("witness.add-temperature", "TEMPI deck with ADD rejected");
+        else if (std::fabs((*v)[0] - 333.15) > 1e-9 || std::fabs((*v)[1] - 333.15) > 1e-9)
+            log.fail("witness.add-temperature", "TEMPI 50 C + ADD 10 gives " + std::to_string((*v)[0]) + " K, expected 333.15 K");
+        else log.ok();
+        stats["witness.add-temperature"]++;
+    }
 }
 
 static int ncases(const std::string& tier, int quick, int thorough) { return tier == "thorough" ? thorough : quick; }
